@@ -91,6 +91,15 @@ def sub_family(mode: str, version: int, thorough: bool = False) -> List[Tuple[st
                                          ("If", P, ("Call", "f", dec)),
                                          ("Assert", ("Bin", "Eq", ("Load", "x"), ("Bin", "Add", P, ("Int", 5)))), e.tag(2)))},
         {"x": {"t": "u"}})
+    for nloc in (0, 2, 3):
+        vs = {"cx%d" % i: {"t": "u"} for i in range(nloc)}
+        st = tuple(("Store", "cx%d" % i, ("Bin", "Add", P, ("Int", 7 * (i + 1)))) for i in range(nloc))
+        chk = tuple(("Assert", ("Bin", "Eq", ("Load", "cx%d" % i), ("Bin", "Add", P, ("Int", 7 * (i + 1))))) for i in range(nloc))
+        add("countdown-%dlocals-1arg" % nloc, ("Seq", ("Call", "f", N), ("Return", ("Int", 1))),
+            {"f": _sub([("val", "n")], "n", ("Seq",) + st + (("If", P, ("Call", "f", dec)),) + chk + (e.tag(2),))}, vs)
+        add("countdown-%dlocals-3args" % nloc, ("Seq", ("Call", "f", N, M, ("Int", 3)), ("Return", ("Int", 1))),
+            {"f": _sub([("val", "n"), ("val", "a"), ("val", "b")], "n",
+                       ("Seq",) + st + (("If", P, ("Call", "f", dec, ("Param", "b"), ("Param", "a"))),) + chk + (("Un", "Pop", ("Bin", "Add", ("Param", "a"), ("Param", "b"))), e.tag(2)))}, vs)
     # ---- by-reference parameters
     add("byref-inc", ("Seq", ("Store", "v", N), ("Call", "f", ("Ref", "v")), ("Call", "f", ("Ref", "v")), ("Return", ("Load", "v"))),
         {"f": _sub([("ref", "p")], "n", ("PStore", "p", ("Bin", "Add", ("PLoad", "p"), ("Int", 1))))}, {"v": {"t": "u"}})
